@@ -9,7 +9,8 @@
 //     the same engine.  Printed per statement:
 //        m <k> done|cut|skip  w=<class,...|->  n=<printed lines>  fr=<frame of the end marker>
 //     and one line
-//        e x=<program reached its end> stray=<warnings outside statements> vmend=<VMs ended>/<max stack index at end>
+//        e x=<program reached its end> nc=<raw statements that do not compile, replaced> fail=<`@! ..` lines of self-checking scenarios>
+//          stray=<warnings outside statements> vmend=<VMs ended>/<max stack index at end>
 //          stepbad=<instructions executed with stack index >= declared size> other=<markers of the 2nd thread>
 //          sentinel=<ok|...> host=<ok|exception class leaving the host's calls>
 //  mode 2 (argument `optable [flags]`): applies every operator / cast / index of
@@ -47,6 +48,43 @@
 #undef private
 #undef protected
 using namespace mfuse;
+// while label parameters are loaded (OP_MARK_STACK_POS .. OP_RESTORE_STACK_POS) the top pointer
+// points into the parameter list, not into the operand stack: the index is meaningless there
+static size_t g_stepBad_;
+
+// ------------------------------------------------------------------ a host class whose handlers throw
+// (`spawn C04Probe`): the interpreter's catch blocks must also cope with an exception raised
+// INSIDE a getter, setter, statement command or value command of a host-defined class.
+static EventDef EV_C04_BadGet("c04bad", 0, nullptr, nullptr, "C04 harness: getter that throws", evType_e::Getter);
+static EventDef EV_C04_BadSet("c04bad", 0, "i", "v", "C04 harness: setter that throws", evType_e::Setter);
+static EventDef EV_C04_WriteOnly("c04wo", 0, "i", "v", "C04 harness: setter without getter", evType_e::Setter);
+static EventDef EV_C04_ReadOnly("c04ro", 0, nullptr, nullptr, "C04 harness: getter without setter", evType_e::Getter);
+static EventDef EV_C04_Throw("c04throw", 0, "IIIIIII", "a b c d e f g", "C04 harness: statement command that throws", evType_e::Normal);
+static EventDef EV_C04_ThrowRet("c04throw", 0, "IIIIIII", "a b c d e f g", "C04 harness: value command that throws", evType_e::Return);
+static EventDef EV_C04_Args("c04args", 0, "IIIIIII", "a b c d e f g", "C04 harness: value command that reads every argument as int", evType_e::Return);
+class C04Probe : public SimpleEntity
+{
+public:
+    MFUS_CLASS_PROTOTYPE(C04Probe);
+    void BadGet(Event&) { throw ScriptException("c04: getter failed"); }
+    void BadSet(Event& ev) { ev.GetInteger(1); throw ScriptException("c04: setter failed"); }
+    void WriteOnly(Event& ev) { ev.GetInteger(1); }
+    void ReadOnly(Event& ev) { ev.AddInteger(7); }
+    void Throw(Event& ev) { for (size_t i = 1; i <= ev.NumArgs(); ++i) ev.GetValue(i); throw ScriptException("c04: command failed"); }
+    void ThrowRet(Event& ev) { ev.AddInteger(1); throw ScriptException("c04: value command failed"); }
+    void Args(Event& ev) { int s = 0; const size_t n = ev.NumArgs(); for (size_t i = 1; i <= n; ++i) s += ev.GetInteger(i); ev.AddInteger(s); }
+};
+MFUS_CLASS_DECLARATION(SimpleEntity, C04Probe, nullptr)
+{
+    { &EV_C04_BadGet, &C04Probe::BadGet },
+    { &EV_C04_BadSet, &C04Probe::BadSet },
+    { &EV_C04_WriteOnly, &C04Probe::WriteOnly },
+    { &EV_C04_ReadOnly, &C04Probe::ReadOnly },
+    { &EV_C04_Throw, &C04Probe::Throw },
+    { &EV_C04_ThrowRet, &C04Probe::ThrowRet },
+    { &EV_C04_Args, &C04Probe::Args },
+    { nullptr, nullptr }
+};
 
 // ------------------------------------------------------------------ tagged log
 struct LogLine { char tag; std::string text; };
@@ -65,7 +103,8 @@ struct TagBuf : std::streambuf {
 
 // ------------------------------------------------------------------ probes (hook H4)
 static size_t g_vmEnds = 0, g_vmEndMax = 0, g_stepBad = 0;
-static void onStep(const void*, size_t, size_t idx, size_t size) { if (idx >= size) ++g_stepBad; }
+static void onStep(const void*, size_t, size_t idx, size_t size);
+static void onStep(const void* vm, size_t, size_t idx, size_t size) { if (!static_cast<const ScriptVM*>(vm)->m_bMarkStack && idx >= size) ++g_stepBad; }
 static void onEnd(const void*, size_t idx) { ++g_vmEnds; if (idx > g_vmEndMax) g_vmEndMax = idx; }
 
 // ------------------------------------------------------------------ representative values
@@ -284,7 +323,13 @@ static StmtText stmtText(const std::string& line)
 static const char* SUBS =
     "sub:\nprintln \"@T\"\nend\n"
     "waiter:\nwait 1000000000000\nend\n"
-    "waiton local.e:\nlocal.e waittill \"never\"\nprintln \"@W\"\nend\n";
+    "waiton local.e:\nlocal.e waittill \"never\"\nprintln \"@W\"\nend\n"
+    "selfkill:\nprintln \"@K\"\nlocal delete\nprintln \"never\"\nend\n";
+
+// raw statements that do not compile on their own are replaced (only compilable programs are
+// the subject): the callback compiles a one-statement script
+static std::function<bool(const std::string&)> g_compiles;
+static int g_notCompilable = 0;
 
 static std::string programText(const std::vector<std::string>& ops, bool& ok)
 {
@@ -297,6 +342,7 @@ static std::string programText(const std::vector<std::string>& ops, bool& ok)
     for (size_t k = 0; k < ops.size(); ++k) {
         StmtText st = stmtText(ops[k]);
         if (!st.ok) { ok = false; return s; }
+        if (ops[k].rfind("R ", 0) == 0 && g_compiles && !g_compiles(st.body)) { st.body = "println \"@nc\""; ++g_notCompilable; }
         std::set<std::string> d;
         std::string setup;
         for (const std::string& u : st.used) setupOf(u, "local.", true, d, setup);
@@ -342,7 +388,22 @@ static void runCase(const std::string& id, const std::string& header, const std:
     verif_case_watchdog(ops.size(), 10, 200);
 
     bool ok = true;
-    const std::string prog = programText(ops, ok);
+    g_notCompilable = 0;
+    std::string prog;
+    {
+        // a scratch engine for the compile probes of raw statements
+        std::unique_ptr<vh::Engine> scratch;
+        int probeNo = 0;
+        g_compiles = [&](const std::string& body) {
+            if (!scratch) scratch.reset(new vh::Engine());
+            try {
+                const ProgramScript* p = scratch->compile("probe" + std::to_string(probeNo++), "main:\n" + body + "\nend\n" + SUBS);
+                return p != nullptr;
+            } catch (...) { return false; }
+        };
+        prog = programText(ops, ok);
+        g_compiles = nullptr;
+    }
     if (!ok) { std::printf("e bad-input\n"); verif_watchdog_off(); std::printf("end\n"); std::fflush(stdout); return; }
     if (showScript) { std::istringstream is(prog); std::string l; while (std::getline(is, l)) std::printf("# %s\n", l.c_str()); }
 
@@ -354,6 +415,8 @@ static void runCase(const std::string& id, const std::string& header, const std:
     std::vector<StmtObs> obs(ops.size());
     int cur = -1, stray = 0;
     bool reachedEnd = false;
+    int failed = 0;                 // lines `@! ...` printed by a scenario that checks itself
+    std::string failText;
     std::string other, sentinel = "missing";
     size_t consumed = 0;
     std::vector<std::string> strayClasses;
@@ -365,6 +428,7 @@ static void runCase(const std::string& id, const std::string& header, const std:
                 if (l.text.rfind("@S ", 0) == 0) { cur = std::atoi(l.text.c_str() + 3); if (cur >= 0 && (size_t)cur < obs.size()) obs[cur].started = true; }
                 else if (l.text.rfind("@E ", 0) == 0) { int k = std::atoi(l.text.c_str() + 3); if (k >= 0 && (size_t)k < obs.size()) { obs[k].ended = true; obs[k].frame = frame; } cur = -1; }
                 else if (l.text == "@X") reachedEnd = true;
+                else if (l.text.rfind("@! ", 0) == 0) { ++failed; if (failText.empty()) failText = l.text.substr(3); }
                 else if (l.text.rfind("@O ", 0) == 0) other += l.text.substr(3);
                 else if (l.text.rfind("@Z ", 0) == 0) sentinel = l.text.substr(3);
                 else if (cur >= 0 && (size_t)cur < obs.size()) obs[cur].lines++;
@@ -393,18 +457,19 @@ static void runCase(const std::string& id, const std::string& header, const std:
             catch (...) { if (host == "ok") host = "exception:unknown"; }
         };
         const ProgramScript* o = nullptr; const ProgramScript* p = nullptr;
-        guarded([&] {
+        try {
             o = e.compile("other", "main:\nprintln \"@O 1\"\nwait 0.001\nprintln \"@O 2\"\nwait 0.001\nprintln \"@O 3\"\nend\n");
             p = e.compile("prog", prog);
-        });
-        if (!p || !o) { if (host == "ok") host = "compile-null"; }
+        } catch (std::exception& x) { host = std::string("not-compilable:") + x.what(); }
+        catch (...) { host = "not-compilable:unknown"; }
+        if (!p || !o) { if (host == "ok") host = "not-compilable:null"; }
         else {
             guarded([&] { e.director().ExecuteThread(o); });
             consume(0);
             guarded([&] { e.director().ExecuteThread(p); });
             consume(0);
             for (int f = 1; f <= 6; ++f) {
-                vh::g_clock += 10000000000000LL;
+                vh::g_clock += 100000;
                 guarded([&] { e.ctx->Execute(); });
                 consume(f);
             }
@@ -425,7 +490,8 @@ static void runCase(const std::string& id, const std::string& header, const std:
         }
         std::string sc;
         for (const std::string& c : strayClasses) { if (!sc.empty()) sc += ","; sc += c; }
-        std::printf("e x=%d stray=%d%s%s vmend=%zu/%zu stepbad=%zu other=%s sentinel=%s host=%s\n", reachedEnd ? 1 : 0, stray, sc.empty() ? "" : ":", sc.c_str(),
+        for (char& c : failText) if (c == ' ') c = '_';
+        std::printf("e x=%d nc=%d fail=%d%s%s stray=%d%s%s vmend=%zu/%zu stepbad=%zu other=%s sentinel=%s host=%s\n", reachedEnd ? 1 : 0, g_notCompilable, failed, failText.empty() ? "" : ":", failText.c_str(), stray, sc.empty() ? "" : ":", sc.c_str(),
                     g_vmEnds, g_vmEndMax, g_stepBad, other.empty() ? "-" : other.c_str(), sentinel.c_str(), host.substr(0, 200).c_str());
         std::fflush(stdout);
         guarded([&] { e.director().Reset(); });
